@@ -144,6 +144,9 @@ func generate(w *mon.W) {
 			} else {
 				x = exprpos.Joinify(x, nil, rng)
 			}
+		} else if i%4 == 1 {
+			// outside a join, `$left`.x is an ordinary qualified name when the qualifier is quoted
+			x = quoteQualify(x, rng)
 		}
 		c := &Case{X: x, Pos: pos, Seed: rng.Int63(), NoNulls: noNulls}
 		w.Do("r|"+pos+"|"+Canon(x), func(r *mon.R) { Check(c, r) })
@@ -424,6 +427,28 @@ func untypedPairs() []*E {
 		}
 	}
 	return out
+}
+
+// quoteQualify gives some columns a quoted qualifier `$left` or `$right`.
+func quoteQualify(x *E, rng interface{ Intn(int) int }) *E {
+	c := *x
+	if x.K == "name" {
+		if len(x.Parts) == 1 && !x.Parts[0].Quoted {
+			n := x.Parts[0].Name
+			if n == "true" || n == "false" || n == "null" {
+				return &c
+			}
+		}
+		if rng.Intn(2) == 0 {
+			c.Parts = append([]Ident{{Name: []string{"$left", "$right"}[rng.Intn(2)], Quoted: true}}, x.Parts...)
+		}
+		return &c
+	}
+	c.Kids = nil
+	for _, k := range x.Kids {
+		c.Kids = append(c.Kids, quoteQualify(k, rng))
+	}
+	return &c
 }
 
 // freeJoinify qualifies every column with a random side.
